@@ -586,3 +586,276 @@ Proof.
   inversion H3 as [|? ? H5 H6]; subst. constructor; [assumption|].
   apply IH. apply Forall_app. split; [assumption|]. constructor; assumption.
 Qed.
+
+Theorem interleaving_no_crash : forall lim tl ts ops,
+  interleaving ts ops -> Forall (Forall (op_ok lim)) ts -> mono 0 ops ->
+  exists c, snd (run (empty lim tl) ops) = Ok c.
+Proof.
+  intros lim tl ts ops Hi Hok Hm. apply no_crash; [|assumption].
+  eapply interleaving_forall; eassumption.
+Qed.
+
+(* ------------------------------------------------------------------------------------------------ *)
+(* handler level: every handler history is a cache-operation history *)
+
+Lemma set_limits : forall c r h v m now c', set c r h v m now = Ok c' ->
+  c_limit c' = c_limit c /\ c_tlimit c' = c_tlimit c.
+Proof.
+  intros c r h v m now c' H. unfold set in H.
+  destruct (evict (c_size c) (blen v) (c_limit c) (c_data c)) as [[s1 d1]|e|w]; try discriminate.
+  destruct (remove_existing s1 r h d1) as [[s2 d2]|e|w]; try discriminate.
+  inversion H; subst. auto.
+Qed.
+
+Lemma store_limits : forall c r h v m now c', store c r h v m now = Ok c' ->
+  c_limit c' = c_limit c /\ c_tlimit c' = c_tlimit c.
+Proof.
+  intros c r h v m now c' H. unfold store in H. destruct (blen v <=? c_limit c).
+  - eapply set_limits. eassumption.
+  - inversion H; subst. auto.
+Qed.
+
+Lemma handle_limits : forall c q c' p, handle c q = Ok (c', p) ->
+  c_limit c' = c_limit c /\ c_tlimit c' = c_tlimit c.
+Proof.
+  intros c q c' p H. unfold handle in H.
+  destruct (lookup c (q_route q) (q_host q) (q_now q)) as [[it|]|e|w]; try discriminate.
+  - inversion H; subst. auto.
+  - destruct (store c (q_route q) (q_host q) (q_fs q) (q_mime q) (q_now q)) as [c1|e|w] eqn:S; try discriminate.
+    inversion H; subst. eapply store_limits. eassumption.
+Qed.
+
+Lemma hrun_snd_cons : forall c q rest,
+  snd (hrun c (q :: rest)) =
+  match handle c q with Ok (c', _) => snd (hrun c' rest) | Err e => Err e | Crash w => Crash w end.
+Proof.
+  intros. cbn [hrun]. destruct (handle c q) as [[c' p]|e|w]; [|reflexivity|reflexivity].
+  destruct (hrun c' rest). reflexivity.
+Qed.
+
+(* one request = its atomic cache operations *)
+Lemma handle_run : forall c q,
+  snd (run c (req_ops c q)) =
+  match handle c q with Ok (c', _) => Ok c' | Err e => Err e | Crash w => Crash w end.
+Proof.
+  intros c q. unfold req_ops, handle, lookup, store.
+  destruct (0 <? c_limit c) eqn:L.
+  - cbn [app]. rewrite run_snd_cons. cbn [step].
+    destruct (get c (q_route q) (q_host q) (q_now q)) as [[it|]|e|w]; try reflexivity.
+    destruct (blen (q_fs q) <=? c_limit c) eqn:G.
+    + rewrite run_snd_cons. cbn [step].
+      destruct (set c (q_route q) (q_host q) (q_fs q) (q_mime q) (q_now q)); reflexivity.
+    + reflexivity.
+  - cbn [app]. destruct (blen (q_fs q) <=? c_limit c) eqn:G.
+    + rewrite run_snd_cons. cbn [step].
+      destruct (set c (q_route q) (q_host q) (q_fs q) (q_mime q) (q_now q)); reflexivity.
+    + reflexivity.
+Qed.
+
+Theorem hrun_trace : forall qs c, snd (hrun c qs) = snd (run c (htrace c qs)).
+Proof.
+  induction qs as [|q qs IH]; intro c; [reflexivity|].
+  rewrite hrun_snd_cons. cbn [htrace]. rewrite run_snd_app, handle_run.
+  destruct (handle c q) as [[c' p]|e|w]; [apply IH | reflexivity | reflexivity].
+Qed.
+
+Lemma req_ops_ok : forall c q, Forall (op_ok (c_limit c)) (req_ops c q).
+Proof.
+  intros c q. unfold req_ops. apply Forall_app. split.
+  - destruct (0 <? c_limit c); constructor; [exact I | constructor].
+  - destruct (lookup c (q_route q) (q_host q) (q_now q)) as [[it|]|e|w]; try constructor.
+    destruct (blen (q_fs q) <=? c_limit c) eqn:G; constructor; [|constructor].
+    cbn [op_ok]. apply N.leb_le. assumption.
+Qed.
+
+Lemma htrace_ok : forall qs c, Forall (op_ok (c_limit c)) (htrace c qs).
+Proof.
+  induction qs as [|q qs IH]; intro c; [constructor|]. cbn [htrace]. apply Forall_app. split; [apply req_ops_ok|].
+  destruct (handle c q) as [[c' p]|e|w] eqn:H; try constructor.
+  apply handle_limits in H. destruct H as [<- _]. apply IH.
+Qed.
+
+Lemma mono_weaken : forall ops t t', t <= t' -> mono t' ops -> mono t ops.
+Proof. intros [|o ops] t t' L M; [exact I|]. cbn [mono] in *. destruct M. split; [lia | assumption]. Qed.
+
+Lemma req_ops_mono : forall c q rest t, t <= q_now q -> mono (q_now q) rest -> mono t (req_ops c q ++ rest).
+Proof.
+  intros c q rest t L M. unfold req_ops.
+  assert (A : forall l, mono (q_now q) l -> mono t
+    (match lookup c (q_route q) (q_host q) (q_now q) with
+     | Ok None => if blen (q_fs q) <=? c_limit c
+                  then [OSet (q_route q) (q_host q) (q_fs q) (q_mime q) (q_now q)] else []
+     | _ => [] end ++ l) /\ mono (q_now q)
+    (match lookup c (q_route q) (q_host q) (q_now q) with
+     | Ok None => if blen (q_fs q) <=? c_limit c
+                  then [OSet (q_route q) (q_host q) (q_fs q) (q_mime q) (q_now q)] else []
+     | _ => [] end ++ l)).
+  { intros l Ml. assert (Mt : mono t l) by (eapply mono_weaken; eassumption).
+    destruct (lookup c (q_route q) (q_host q) (q_now q)) as [[it|]|e|w]; cbn [app]; auto.
+    destruct (blen (q_fs q) <=? c_limit c); cbn [app mono op_now]; auto.
+    split; split; auto; lia. }
+  rewrite <- app_assoc. destruct (0 <? c_limit c); cbn [app].
+  - cbn [mono op_now]. split; [assumption|]. apply A. assumption.
+  - apply A. assumption.
+Qed.
+
+Lemma htrace_mono : forall qs c t, qmono t qs -> mono t (htrace c qs).
+Proof.
+  induction qs as [|q qs IH]; intros c t M; [exact I|]. cbn [qmono] in M. destruct M as [M1 M2].
+  cbn [htrace]. apply req_ops_mono; [assumption|].
+  destruct (handle c q) as [[c' p]|e|w]; [apply IH; assumption | exact I | exact I].
+Qed.
+
+(* no guard hypothesis: the handlers establish it themselves *)
+Theorem handler_no_crash : forall lim tl qs, qmono 0 qs -> exists c, snd (hrun (empty lim tl) qs) = Ok c.
+Proof.
+  intros lim tl qs M. rewrite hrun_trace. apply no_crash.
+  - exact (htrace_ok qs (empty lim tl)).
+  - apply htrace_mono. assumption.
+Qed.
+
+Theorem handler_invariants : forall lim tl qs c,
+  snd (hrun (empty lim tl) qs) = Ok c ->
+  c_size c = total (c_data c) /\ c_size c <= lim /\ NoDup (map item_key (c_data c))
+  /\ c_limit c = lim /\ c_tlimit c = tl.
+Proof. intros lim tl qs c H. rewrite hrun_trace in H. eapply invariants. eassumption. Qed.
+
+(* every set in the trace was issued by a request of the history, with that request's file contents and clock *)
+Lemma req_ops_sets : forall c q r h v m t, In (OSet r h v m t) (req_ops c q) ->
+  r = q_route q /\ h = q_host q /\ v = q_fs q /\ m = q_mime q /\ t = q_now q.
+Proof.
+  intros c q r h v m t H. unfold req_ops in H. apply in_app_or in H. destruct H as [H|H].
+  - destruct (0 <? c_limit c); [destruct H as [H|[]]; discriminate | contradiction].
+  - destruct (lookup c (q_route q) (q_host q) (q_now q)) as [[it|]|e|w]; try contradiction.
+    destruct (blen (q_fs q) <=? c_limit c); [|contradiction].
+    destruct H as [H|[]]. inversion H; subst. auto.
+Qed.
+
+Lemma htrace_sets : forall qs c r h v m t, In (OSet r h v m t) (htrace c qs) ->
+  exists q, In q qs /\ r = q_route q /\ h = q_host q /\ v = q_fs q /\ m = q_mime q /\ t = q_now q.
+Proof.
+  induction qs as [|q qs IH]; intros c r h v m t H; [contradiction|]. cbn [htrace] in H.
+  apply in_app_or in H. destruct H as [H|H].
+  - exists q. split; [left; reflexivity | eapply req_ops_sets; eassumption].
+  - destruct (handle c q) as [[c' p]|e|w]; try contradiction.
+    destruct (IH _ _ _ _ _ _ H) as (q' & Hin & Hq). exists q'. split; [right; assumption | assumption].
+Qed.
+
+Lemma hrun_app : forall a c b,
+  hrun c (a ++ b) =
+  match snd (hrun c a) with
+  | Ok c' => (fst (hrun c a) ++ fst (hrun c' b), snd (hrun c' b))
+  | _ => hrun c a
+  end.
+Proof.
+  induction a as [|q a IH]; intros c b.
+  - cbn. destruct (hrun c b). reflexivity.
+  - cbn [app hrun]. destruct (handle c q) as [[c' p]|e|w]; [|reflexivity|reflexivity].
+    rewrite IH. destruct (hrun c' a) as [ps fin]. cbn [fst snd].
+    destruct fin as [c2|e|w]; [|reflexivity|reflexivity]. destruct (hrun c2 b). reflexivity.
+Qed.
+
+Lemma hrun_length : forall qs c,
+  match snd (hrun c qs) with
+  | Ok _ => length (fst (hrun c qs)) = length qs
+  | _ => (length (fst (hrun c qs)) < length qs)%nat
+  end.
+Proof.
+  induction qs as [|q qs IH]; intro c; [reflexivity|]. cbn [hrun].
+  destruct (handle c q) as [[c' p]|e|w]; cbn [fst snd length]; try lia.
+  specialize (IH c'). destruct (hrun c' qs) as [ps fin]. cbn [fst snd length] in *.
+  destruct fin; lia.
+Qed.
+
+(* handler level: a response is the file as it is now, or exactly what an earlier request for the same
+   (route, host) read from the file system no more than the time limit ago *)
+Theorem handler_fresh : forall lim tl pre q post p,
+  nth_error (fst (hrun (empty lim tl) (pre ++ q :: post))) (length pre) = Some p ->
+  p = mkResp (q_fs q) (q_mime q) false \/
+  (p_cached p = true /\
+   exists pre1 q' pre2, pre = pre1 ++ q' :: pre2 /\
+     q_route q' = q_route q /\ q_host q' = q_host q /\
+     p_body p = q_fs q' /\ p_mime p = q_mime q' /\
+     q_now q' <= q_now q /\ q_now q - q_now q' <= tl).
+Proof.
+  intros lim tl pre q post p H. rewrite hrun_app in H.
+  pose proof (hrun_length pre (empty lim tl)) as Len.
+  destruct (snd (hrun (empty lim tl) pre)) as [c1|e|w] eqn:R1.
+  2,3: (assert (nth_error (fst (hrun (empty lim tl) pre)) (length pre) = None) as E
+          by (apply nth_error_None; lia); rewrite E in H; discriminate).
+  cbn [fst] in H. rewrite nth_error_app2 in H by lia. rewrite Len, Nat.sub_diag in H.
+  cbn [hrun] in H. destruct (handle c1 q) as [[c2 p']|e|w] eqn:Hd; [|discriminate|discriminate].
+  destruct (hrun c2 post) as [ps fin]. cbn in H. inversion H; subst p'; clear H.
+  unfold handle in Hd.
+  destruct (lookup c1 (q_route q) (q_host q) (q_now q)) as [[it|]|e|w] eqn:Lk; try discriminate.
+  - inversion Hd; subst c2 p; clear Hd. right. split; [reflexivity|]. cbn [p_body p_mime].
+    unfold lookup in Lk. destruct (0 <? c_limit c1); [|discriminate].
+    rewrite hrun_trace in R1.
+    destruct (get_latest _ _ _ _ _ _ _ _ R1 Lk) as (tpre & v & m & t & tpost & E & _ & Eit & T1 & T2).
+    assert (Hin : In (OSet (q_route q) (q_host q) v m t) (htrace (empty lim tl) pre)).
+    { rewrite E. apply in_or_app. right. left. reflexivity. }
+    destruct (htrace_sets _ _ _ _ _ _ _ Hin) as (q' & Hq' & K1 & K2 & K3 & K4 & K5).
+    apply in_split in Hq'. destruct Hq' as (pre1 & pre2 & ->).
+    exists pre1, q', pre2. subst it. cbn [i_data i_mime]. subst. auto 10.
+  - destruct (store c1 (q_route q) (q_host q) (q_fs q) (q_mime q) (q_now q)); try discriminate.
+    inversion Hd; subst. left. reflexivity.
+Qed.
+
+(* ------------------------------------------------------------------------------------------------ *)
+(* the outputs of a run are the results of get on the intermediate states *)
+
+Lemma run_app : forall a c b,
+  run c (a ++ b) =
+  match snd (run c a) with
+  | Ok c' => (fst (run c a) ++ fst (run c' b), snd (run c' b))
+  | _ => run c a
+  end.
+Proof.
+  induction a as [|o a IH]; intros c b.
+  - cbn. destruct (run c b). reflexivity.
+  - cbn [app run]. destruct (step c o) as [[c' out]|e|w]; [|reflexivity|reflexivity].
+    rewrite IH. destruct (run c' a) as [outs fin]. cbn [fst snd].
+    destruct fin as [c2|e|w]; [|reflexivity|reflexivity]. destruct (run c2 b). cbn [fst snd].
+    destruct out; reflexivity.
+Qed.
+
+Lemma run_length : forall ops c,
+  match snd (run c ops) with
+  | Ok _ => length (fst (run c ops)) = ngets ops
+  | _ => (length (fst (run c ops)) <= ngets ops)%nat
+  end.
+Proof.
+  induction ops as [|o ops IH]; intro c; [reflexivity|]. cbn [run].
+  destruct (step c o) as [[c' out]|e|w] eqn:S; cbn [fst snd length]; try lia.
+  specialize (IH c'). destruct (run c' ops) as [outs fin]. cbn [fst snd] in *.
+  destruct o as [r h v m now|r h now].
+  - apply step_set in S. destruct S as [_ ->]. cbn [ngets]. destruct fin; assumption.
+  - apply step_get in S. destruct S as (_ & x & _ & ->). cbn [ngets length]. destruct fin; lia.
+Qed.
+
+Theorem run_get_output : forall lim tl pre r h now post x,
+  nth_error (fst (run (empty lim tl) (pre ++ OGet r h now :: post))) (ngets pre) = Some x ->
+  exists c, snd (run (empty lim tl) pre) = Ok c /\ get c r h now = Ok x.
+Proof.
+  intros lim tl pre r h now post x H. rewrite run_app in H.
+  pose proof (run_length pre (empty lim tl)) as Len.
+  destruct (snd (run (empty lim tl) pre)) as [c1|e|w] eqn:R1.
+  2,3: (assert (nth_error (fst (run (empty lim tl) pre)) (ngets pre) = None) as E
+          by (apply nth_error_None; lia); rewrite E in H; discriminate).
+  exists c1. split; [reflexivity|]. cbn [fst] in H. rewrite nth_error_app2 in H by lia.
+  rewrite Len, Nat.sub_diag in H. cbn [run step] in H.
+  destruct (get c1 r h now) as [y|e|w]; [|discriminate|discriminate].
+  destruct (run c1 post). cbn in H. inversion H. reflexivity.
+Qed.
+
+(* every hit printed by a run is the most recent set for that key before it, and fresh *)
+Theorem every_get_latest : forall lim tl pre r h now post it,
+  nth_error (fst (run (empty lim tl) (pre ++ OGet r h now :: post))) (ngets pre) = Some (Some it) ->
+  exists pre1 v m t pre2,
+    pre = pre1 ++ OSet r h v m t :: pre2 /\
+    Forall (fun o => ~ sets_key (r, h) o) pre2 /\
+    it = mkItem r h m t v /\ t <= now /\ now - t <= tl.
+Proof.
+  intros lim tl pre r h now post it H. apply run_get_output in H. destruct H as (c & R & G).
+  eapply get_latest; eassumption.
+Qed.
